@@ -45,8 +45,8 @@ Theorem C02_assigned_piece_completes : forall sha1 cf disk ovf i content,
       after_piece_finish cf (set_rx (set_ka s1 0) None) [AWrite (hash_of cf i) content; ACmd KPieceDone] reply.
 Proof. intros sha1 cf disk ovf i content Hh. exact (assigned_piece_completes sha1 cf disk ovf i content Hh). Qed.
 
-(* ONE HONEST SEEDER SUFFICES -- the sequential core of the liveness claim, machine-checked.  The manager knows one
-   peer that advertises every piece, does not choke us and answers the requests of an assignment in order with the right
+(* ONE HONEST SEEDER SUFFICES -- the sequential core of the liveness claim, machine-checked.  Among the manager's
+   peers (the others hold no reservation and stay silent) there is one that advertises every piece, does not choke us and answers the requests of an assignment in order with the right
    bytes; the chooser is the code's (rarest first; C02_seeder_any_chooser: any function meeting C13's specification).
    From the first assignment on, every iteration (answers -> verification and write -> PieceDone -> owned, broadcast,
    next pick -> next requests) decreases the number of missing pieces by one and the loop ends with every piece
